@@ -95,8 +95,8 @@ Definition C13_total_on_dumps_full_statement : Prop :=
 
 (* Proved: for every value of the C05 fragment (c05_guard: JSON scalars; arbitrarily nested list / tuple / set; dict /
    OrderedDict / defaultdict; slices; function and type names; attrgetter / itemgetter; numpy arrays and scalars; sparse
-   matrices; dtypes; masked arrays; RandomState / Generator; functools.partial; arbitrary sharing of sub-objects; nesting
-   depth below get_tree's fuel), every load environment E with this run's registry and protocol and the archive's member
+   matrices; dtypes; masked arrays; RandomState / Generator; functools.partial; bytes / bytearray; rank-1 object arrays;
+   arbitrary sharing of sub-objects; nesting depth below get_tree's fuel), every load environment E with this run's registry and protocol and the archive's member
    list (whatever the node classes' default-trusted names are), every skipped-kind list containing SliceNode, and EVERY
    trusted list T:
    - the row generator handed to a custom sink runs to the end (no exception: no missing reference, no RecursionError, no
@@ -166,6 +166,27 @@ Example C13_total_nonvacuous :
            (2, true, true); (1, true, true); (2, true, true); (2, true, true)]%nat
   /\ brief (vis_of wvis None ShowUntrusted) = Ok [(0, true, false); (1, false, false)]%nat
   /\ brief (vis_of wvis (Some [s "functools.partial"]) ShowUntrusted) = Ok [(0%nat, true, true)].
+Proof. repeat split; vm_compute; reflexivity. Qed.
+
+(* non-vacuity for bytes / bytearray (one LBytes leaf below the node, nothing to walk) and a rank-1 object array: a tuple
+   (b, bytearray, b again -- a reference, shown through its target --, an object array holding b and the int 1, 2); the
+   snapshot's skipped kinds contain NdArrayNode, so the array's cells and shape are not shown *)
+Definition wvisb : pval :=
+  let bs := PBytes 70 false (s "builtins") (s "bytes") (s "6162") in
+  let ba := PBytes 71 true (s "builtins") (s "bytearray") (s "00ff") in
+  ptuple 72 [bs; ba; bs; PObjArr 73 (s "numpy") (s "ndarray") [2%Z] [bs; pint 1]; pint 2].
+Example C13_total_nonvacuous_bytes :
+  c05_guard wf (wd Snapshot.current) wbase wvisb = true
+  /\ vis_of wvisb None ShowAll = rows_of wvisb None
+  /\ (do l <- rows_of wvisb None; Ok (map (fun x => (r_level x, r_val x)) l))
+     = Ok [(0, s "builtins.tuple"); (1, s "<bytes>"); (1, s "bytearray(<bytes>)"); (1, s "<bytes>"); (1, s "numpy.ndarray");
+           (1, s "json-type(2)")]%nat
+  /\ brief (vis_of wvisb None ShowUntrusted) = Ok [(0%nat, true, true)]
+  (* with no skipped kind at all the cells and the shape tuple of the object array are walked too *)
+  /\ (do a <- dumps_model (wd Snapshot.current) wbase wvisb;
+      do l <- visualize (dump_env a) [] (a_schema a) None ShowAll; Ok (map (fun x => (r_level x, r_val x)) l))
+     = Ok [(0, s "builtins.tuple"); (1, s "<bytes>"); (1, s "bytearray(<bytes>)"); (1, s "<bytes>"); (1, s "numpy.ndarray");
+           (2, s "<bytes>"); (2, s "json-type(1)"); (2, s "builtins.tuple"); (3, s "json-type(2)"); (1, s "json-type(2)")]%nat.
 Proof. repeat split; vm_compute; reflexivity. Qed.
 
 (* D24 (open): show = "trusted" hides a node whose own type is untrusted but still emits its trusted children one level
